@@ -33,6 +33,14 @@ pub struct DesKey {
     buf: Buffer,
 }
 
+#[cfg(gufo_snmp_verif)]
+impl DesKey {
+    /// (next salt counter, private buffer length)
+    pub fn verif_state(&self) -> (u64, usize) {
+        (self.salt_value as u64, self.buf.len())
+    }
+}
+
 impl SnmpPriv for DesKey {
     fn as_localized(&mut self, key: &[u8]) -> SnmpResult<()> {
         if key.len() < KEY_LENGTH {
